@@ -120,6 +120,21 @@ static void same_call(const call_t* got, const call_t* ref) {
     }
 }
 
+/* the single-threaded reference run (num_threads 1, no scheduling model): records every call into REF[] */
+static void reference_run(void) {
+    carquet_reader_t* r0 = open_reader();
+    SYMX_ASSERT(r0 != NULL, "harness precondition: the file opens");
+    carquet_batch_reader_t* br0 = make_batch_reader(r0, 1);
+    SYMX_ASSERT(br0 != NULL, "harness precondition: the batch reader is created");
+    nref = 0;
+    int rows0 = 0;
+    while (nref < MAXCALLS) { int more = one_call(br0, &REF[nref]); rows0 += REF[nref].nrows; nref++; if (!more) break; }
+    carquet_batch_reader_free(br0);
+    carquet_reader_close(r0);
+    SYMX_ASSERT(nref < MAXCALLS && REF[nref - 1].status == CARQUET_ERROR_END_OF_DATA && rows0 == VP_ROWS, "harness precondition: the single-threaded run delivers all rows and ends with END_OF_DATA");
+    symx_observe_int((uint64_t)nref, "single-threaded calls");
+}
+
 void harness(void) {
     int nc = vt_table(&S, C, VP_SPEC, VP_ROWS, VP_FLAVOUR);
     SYMX_ASSERT(nc > 0, "harness: bad table spec");
@@ -138,20 +153,8 @@ void harness(void) {
 #endif
     for (int k = 0; k < proj_n; k++) { proj_idx[k] = proj_cols[k]; proj_names[k] = S.name[proj_cols[k]]; }
 
-    /* ---- single-threaded reference run */
-    carquet_reader_t* r0 = open_reader();
-    SYMX_ASSERT(r0 != NULL, "harness precondition: the file opens");
-    carquet_batch_reader_t* br0 = make_batch_reader(r0, 1);
-    SYMX_ASSERT(br0 != NULL, "harness precondition: the batch reader is created");
-    nref = 0;
-    int rows0 = 0;
-    while (nref < MAXCALLS) { int more = one_call(br0, &REF[nref]); rows0 += REF[nref].nrows; nref++; if (!more) break; }
-    carquet_batch_reader_free(br0);
-    carquet_reader_close(r0);
-    SYMX_ASSERT(nref < MAXCALLS && REF[nref - 1].status == CARQUET_ERROR_END_OF_DATA && rows0 == VP_ROWS, "harness precondition: the single-threaded run delivers all rows and ends with END_OF_DATA");
-    symx_observe_int((uint64_t)nref, "single-threaded calls");
-
 #if VP_MODEL == 3
+    reference_run();
     /* ---- two independent readers, calls interleaved in every order */
     carquet_reader_t* ra = open_reader(); carquet_reader_t* rb = open_reader();
     SYMX_ASSERT(ra != NULL && rb != NULL, "both readers open");
@@ -166,33 +169,39 @@ void harness(void) {
     carquet_batch_reader_free(ba_); carquet_batch_reader_free(bb_);
     carquet_reader_close(ra); carquet_reader_close(rb);
 #else
-    /* ---- the run under the scheduling model */
+    /* ---- the run under the scheduling model; its calls are recorded and compared with the reference afterwards.  In the worker
+     * model it comes BEFORE the reference run: the forced-schedule native replay counts arrivals at a source line from the start
+     * of the process, so nothing may pass through the reader code before it. */
   #if VP_THREADS
     int threads = VP_THREADS;
   #else
     int threads = 1 + symx_choice(4, "num_threads-1");
   #endif
+  #if VP_MODEL != 2
+    reference_run();                 /* iteration-order model: reference first (it then runs once, before the paths fork) */
+  #endif
     carquet_reader_t* r = open_reader();
-    SYMX_ASSERT(r != NULL, "the file opens a second time");
+    SYMX_ASSERT(r != NULL, "harness precondition: the file opens");
     carquet_batch_reader_t* br = make_batch_reader(r, threads);
-    SYMX_ASSERT(br != NULL, "the batch reader is created");
+    SYMX_ASSERT(br != NULL, "harness precondition: the batch reader is created");
   #if VP_MODEL == 2
     symx_omp_threads(2);             /* modelled workers with preemption at conflicting accesses */
   #else
     symx_omp_permute(1);
   #endif
     if (threads >= 2) symx_interfere(1);
-    static call_t got;
-    for (int i = 0; i < nref; i++) {
-        int more = one_call(br, &got);
-        same_call(&got, &REF[i]);
-        if (!more) break;
-    }
+    static call_t GOT[MAXCALLS]; int ngot = 0;
+    while (ngot < MAXCALLS) { int more = one_call(br, &GOT[ngot]); ngot++; if (!more) break; }
     symx_interfere(0);
     symx_omp_permute(0);
     symx_omp_threads(0);
     carquet_batch_reader_free(br);
     carquet_reader_close(r);
+  #if VP_MODEL == 2
+    reference_run();
+  #endif
+    SYMX_ASSERT(ngot == nref, "same number of carquet_batch_reader_next calls until the end of the data as single-threaded");
+    for (int i = 0; i < ngot; i++) same_call(&GOT[i], &REF[i]);
 #endif
     symx_check_leaks();
 }
